@@ -264,3 +264,22 @@ Theorem C03_transit_buffer_refuted_late_expand :
   exists c0 ops, TEB.TEBProofs.differs TEB.TEBProofs.K_late_full c0 ops = true.
 Proof. exact TEB.TEBProofs.teb_refuted_late_expand. Qed.
 Print Assumptions C03_transit_buffer_refuted_late_expand.
+
+(* the link from M-BE to the list machine the slot array refines: what a read pass of M-BE does to a thread's transit
+   buffer is a sequence of commits (one per admitted record) and abandoned fills (a record beyond the timestamp cut-off,
+   a formatter's exception that escapes), and popping the processed event is OPop - for every fuel, limit, cut-off and
+   thread record *)
+From Quill Require Backend.BETeb.
+Theorem C03_MBE_buffer_steps_are_list_machine_steps : forall (K : cfg) (ic : N) (sr : bool) (fuel : nat) (lim tn : N) (x : thr)
+    (total : N) (notes : list N),
+  exists ops, Forall Backend.BETeb.put_or_touch ops /\
+    Backend.BETeb.fifo_of ic sr (fst (fst (fst (read_loop K fuel lim tn x total notes)))) =
+    Backend.BETeb.fifo_exec (Backend.BETeb.fifo_of ic sr x) ops.
+Proof. exact Backend.BETeb.read_loop_is_fifo_ops. Qed.
+Print Assumptions C03_MBE_buffer_steps_are_list_machine_steps.
+
+Theorem C03_MBE_pop_is_list_machine_pop : forall (ic : N) (sr : bool) (s : st) (u : nat) (e : ev),
+  Backend.BETeb.fifo_of ic sr (th (pop_event s u e) u) =
+  TEB.TEBModel.fifo_step ev (Backend.BETeb.fifo_of ic sr (th s u)) TEB.TEBModel.OPop.
+Proof. exact Backend.BETeb.pop_event_is_OPop. Qed.
+Print Assumptions C03_MBE_pop_is_list_machine_pop.
